@@ -121,7 +121,7 @@ pub proof fn d6_loop_left_early()
                         }
 //@before /\(\*packets\)\.push\(Packet::ReliableSlice \{/
                         let ghost pkx = packets@;
-//@after /\*packet_sequence \+= 1;/ 2
+//@before /last_sent\[i\] = Some\(current_time\);/
                         proof {
                             let pk = packets@.last();
                             assert(packets@.drop_last() =~= pkx);
